@@ -34,7 +34,7 @@ def plan(tier):
     return {"cases": 3000 if tier == "quick" else 100000, "shards": 16, "case_timeout": 60, "shard_timeout": 3000,
             "min_nontrivial": 100,
             "min_counters": {"facts_asserted": 8000, "derived_facts_checked": 8000, "permutation_cases": 500,
-                             "field:sub_org_of": 500, "field:head_of": 300, "field:part_of": 300, "field:under": 100, "field:chairs": 50, "field:leads": 40, "field:runs": 60, "role_class:ChiefF": 100, "form:ctor": 200, "form:assign_keep": 30}}
+                             "field:sub_org_of": 500, "field:head_of": 300, "field:part_of": 300, "field:under": 100, "field:chairs": 50, "field:leads": 40, "field:runs": 60, "field:attendees": 40, "role_class:ChiefF": 100, "form:ctor": 200, "form:assign_keep": 30}}
 
 
 def setup(ctx):
@@ -51,7 +51,8 @@ FIELD_KIND = {"works_for": ("person", "org", "single"), "head_of": ("chief", "or
               "sub_org_of": ("org", "org", "list"), "part_of": ("org", "org", "list"), "has_part": ("org", "org", "list"),
               "wholly_owned_by": ("org", "org", "list"), "under": ("unit", "org", "list"),
               "chairs": ("chair", "org", "single"), "attends": ("delegate", "org", "list"),
-              "leads": ("convener", "org", "list"), "runs": ("boss", "org", "single")}
+              "leads": ("convener", "org", "list"), "runs": ("boss", "org", "single"),
+              "attendees": ("org", "attendee", "list")}
 
 
 def gen_population(rng):
@@ -73,8 +74,11 @@ def gen_population(rng):
         for i in range(rng.randint(1, 2)):
             pop.append([f"v{i}", rng.choice(["Visitor", "Delegate", "Delegate", "Convener", "Convener"]), None])
             visitors.append(f"v{i}")
-        for i in range(rng.randint(1, 2)):
-            pop.append([f"h{i}", "Chair", rng.choice(visitors)])
+        # (a chair's role taker carries the field for the inverse of what the chair attends: a plain Visitor cannot
+        # take the role - krrood refuses the assertion, there is no field to put the inverse into)
+        takers = [v for v in visitors if dict((p[0], p[1]) for p in pop)[v] != "Visitor"]
+        for i in range(rng.randint(1, 2) if takers else 0):
+            pop.append([f"h{i}", "Chair", rng.choice(takers)])
     return pop
 
 
@@ -95,6 +99,10 @@ def names_of(pop, kind):
         return [p[0] for p in pop if p[1] in ("Delegate", "Convener")]
     if kind == "convener":
         return [p[0] for p in pop if p[1] == "Convener"]
+    if kind == "attendee":
+        # who has a field for the inverse: a delegate / convener, or a chair whose role taker is one
+        cls_of = {p[0]: p[1] for p in pop}
+        return [p[0] for p in pop if p[1] in ("Delegate", "Convener") or (p[1] == "Chair" and cls_of.get(p[2]) in ("Delegate", "Convener"))]
     return [p[0] for p in pop if p[0][0] in "pc"]
 
 
@@ -170,8 +178,8 @@ BANK = [
     ([["u0", "Unit", None], ["o0", "Org", None], ["o1", "Dept", None], ["o2", "Org", None]],
      [["u0", "under", "o0"], ["o0", "sub_org_of", "o1"], ["o1", "wholly_owned_by", "o2"]]),
     # the super-property of a role lives on a subclass of the declared role taker type
-    ([["v0", "Delegate", None], ["v1", "Visitor", None], ["o0", "Org", None], ["o1", "Org", None], ["h0", "Chair", "v0"], ["h1", "Chair", "v1"]],
-     [["h0", "chairs", "o0"], ["h1", "chairs", "o0"], ["v0", "attends", "o1"]]),
+    ([["v0", "Delegate", None], ["v1", "Convener", None], ["o0", "Org", None], ["o1", "Org", None], ["h0", "Chair", "v0"], ["h1", "Chair", "v1"]],
+     [["h0", "chairs", "o0"], ["h1", "chairs", "o0"], ["v0", "attends", "o1"], ["o1", "attendees", "h1"]]),
     # role taker chains and inverses
     ([["p0", "Person", None], ["o0", "Org", None], ["o1", "Org", None], ["c0", "Chief", "p0"]],
      [["c0", "head_of", "o0"], ["p0", "member_of", "o1"], ["o1", "members", "c0"], ["o0", "sub_org_of", "o1"]]),
@@ -209,6 +217,9 @@ def witnesses():
                                                         "facts": [["p0", "works_for", "o0", "ctor"]]},
         "transitive-property-on-two-classes": {"pop": [["u0", "Unit", None], ["o0", "Org", None], ["o1", "Org", None]],
                                                "facts": [["o0", "sub_org_of", "o1", "append"], ["u0", "under", "o0", "append"]]},
+        "inverse-through-a-role-uses-the-declared-role-taker-type": {
+            "pop": [["v0", "Convener", None], ["o0", "Org", None], ["h0", "Chair", "v0"]],
+            "facts": [["o0", "attendees", "h0", "append"]]},
     }
 
 
